@@ -1554,6 +1554,7 @@ class Explorer:
                         res.append((s2, self.raise_status(s2)))
                         continue
                     if not b:
+                        self.emit(s2, 'loopexit', n, loop_line=n.lineno, how='exhausted', iterations=i)
                         res += self.block(n.orelse, s2) if n.orelse else [(s2, 'normal')]
                         continue
                     if i == unroll:
@@ -1566,6 +1567,7 @@ class Explorer:
                         if status in ('normal', 'continue'):
                             nxt.append(s3)
                         elif status == 'break':
+                            self.emit(s3, 'loopexit', n, loop_line=n.lineno, how='break', iterations=i + 1)
                             res.append((s3, 'normal'))
                         else:
                             res.append((s3, status))
